@@ -146,7 +146,8 @@ Depth(P, n) == P.depth[n]
 CheckQuiescent(P, T, S, ln) ==
     (IF ln.gates = 0 /\ ln.timers = 0 /\ Len(ln.pending) > 0 THEN {"C02.stuck"} ELSE {})
     \cup
-    (IF P.plain /\ Len(ln.pending) > 0
+    (* with a suspended collaborator call (event callback, artifact save) a finished body is not yet a completed node *)
+    (IF P.plain /\ Len(ln.pending) > 0 /\ ln.collab_gates = 0
      THEN UNION {LET s == S[ln.pending[i]]
                      fin(m) == \E j \in 1..Len(s.log) : IsBE(s.log[j]) /\ s.log[j][2] = m /\ s.log[j][4][1] = "ok"
                      sta(m) == \E j \in 1..Len(s.log) : IsBS(s.log[j]) /\ s.log[j][2] = m
@@ -212,7 +213,9 @@ CheckReturn(P, T, sm, s, ln) ==
       (IF kind = "value"
        THEN UNION {IF Len(prodn(n)) = 0
                    THEN (IF Len(savesn(n)) = 0 THEN {} ELSE {"C19.value"})
-                   ELSE (IF Len(savesn(n)) # 1 THEN {"C19.once"}
+                   ELSE (IF Len(savesn(n)) # 1
+                         THEN (IF \E i \in 1..Len(P.rec_inside) : P.rec_inside[i] = n
+                               THEN {"C19.once_rec"} ELSE {"C19.once"})
                          ELSE IF savesn(n)[1][3] # lastprod(n) THEN {"C19.value"} ELSE {})
                    : n \in {P.ids[i] : i \in 1..Len(P.ids)}}
        ELSE {})
